@@ -74,14 +74,21 @@ func (c *counter) Inc(v int64) {
 }
 
 func (c *counter) value() int64 {
-	curr := atomic.LoadInt64(&c.curr)
-
-	prev := atomic.LoadInt64(&c.prev)
-	if prev == curr {
-		return 0
+	// n.b. Report passes can run concurrently (the report loop, Close and the
+	//      re-acquisition of a closed scope), so the delta must be claimed
+	//      atomically: prev is only advanced from the value the delta was
+	//      computed against, otherwise an increment is delivered twice or a
+	//      negative delta is reported.
+	for {
+		prev := atomic.LoadInt64(&c.prev)
+		curr := atomic.LoadInt64(&c.curr)
+		if prev == curr {
+			return 0
+		}
+		if atomic.CompareAndSwapInt64(&c.prev, prev, curr) {
+			return curr - prev
+		}
 	}
-	atomic.StoreInt64(&c.prev, curr)
-	return curr - prev
 }
 
 func (c *counter) report(name string, tags map[string]string, r StatsReporter) {
